@@ -76,3 +76,45 @@ Example holding_across_yield_fails : segs_ok [[LPush]; []; [LPop]] = false.
 Proof. reflexivity. Qed.
 Example decorated_call_passes : segs_ok [[LPush; LPop]] = true.
 Proof. reflexivity. Qed.
+
+(* ---------------------------------------------------------------- reading default_filters[-1] inside a shielded call *)
+(* library entries are `None` in the model: tuples chosen by library code (`()` for every decorator,
+   translate/gen_filters.py fails closed on decorator arguments and on `extend=`), never derived from
+   the caller's stack *)
+Lemma stays_open_inside filt : forall pre r d post (st : stack filt),
+  r = pre ++ post -> post <> [] -> stays_open r (S d) = true ->
+  exists d', run_ops filt pre (repeat None (S d) ++ st) = Some (repeat None (S d') ++ st).
+Proof.
+  induction pre as [|op pre IH]; intros r d post st Hr Hp Hs.
+  - exists d. reflexivity.
+  - subst r. cbn [app] in Hs. destruct op; cbn [stays_open] in Hs.
+    + cbn [run_ops]. apply (IH (pre ++ post) (S d) post st eq_refl Hp) in Hs. exact Hs.
+    + destruct d as [|d'].
+      * destruct (pre ++ post) eqn:E; [|discriminate]. apply app_eq_nil in E. destruct E as [_ E]. contradiction.
+      * cbn [run_ops repeat app]. apply (IH (pre ++ post) d' post st eq_refl Hp) in Hs. exact Hs.
+Qed.
+
+(* whatever the caller's stack st is, at every point strictly inside a shielded segment the top of
+   default_filters is the library's own entry, and the caller's stack lies untouched below it *)
+Theorem top_during_shielded_call filt seg : shielded_seg seg = true ->
+  forall pre post (st : stack filt), seg = pre ++ post -> pre <> [] -> post <> [] ->
+  exists st', run_ops filt pre st = Some st' /\ hd_error st' = Some None /\ exists d, st' = repeat None (S d) ++ st.
+Proof.
+  intros Hs pre post st Hseg Hpre Hpost. destruct seg as [|[|] r]; try discriminate. cbn [shielded_seg] in Hs.
+  destruct pre as [|op pre']; [contradiction|]. cbn [app] in Hseg. injection Hseg as <- Hr.
+  cbn [run_ops]. destruct (stays_open_inside filt pre' r 0 post st Hr Hpost Hs) as [d' Hd].
+  cbn [repeat app] in Hd. exists (repeat None (S d') ++ st). split; [exact Hd|]. split; [reflexivity|].
+  exists d'. reflexivity.
+Qed.
+
+(* hence what a shielded routine reads does not depend on the caller: two callers with different
+   stacks see the same top inside the call *)
+Corollary shielded_reads_same filt seg : shielded_seg seg = true ->
+  forall pre post (st1 st2 : stack filt), seg = pre ++ post -> pre <> [] -> post <> [] ->
+  exists s1 s2, run_ops filt pre st1 = Some s1 /\ run_ops filt pre st2 = Some s2 /\ hd_error s1 = hd_error s2.
+Proof.
+  intros Hs pre post st1 st2 Hseg Hpre Hpost.
+  destruct (top_during_shielded_call filt seg Hs pre post st1 Hseg Hpre Hpost) as (s1 & H1 & T1 & _).
+  destruct (top_during_shielded_call filt seg Hs pre post st2 Hseg Hpre Hpost) as (s2 & H2 & T2 & _).
+  exists s1, s2. rewrite T1, T2. auto.
+Qed.
